@@ -810,12 +810,13 @@ caf_read_chanmap (SF_PRIVATE * psf, sf_count_t chunk_size)
 	if (bytesread < chunk_size)
 		psf_binheader_readf (psf, "j", chunk_size - bytesread) ;
 
-	if (map_info && map_info->channel_map != NULL)
+	if (map_info && map_info->channel_map != NULL && psf->sf.channels > 0)
 	{	size_t chanmap_size = SF_MIN (psf->sf.channels, layout_tag & 0xff) * sizeof (psf->channel_map [0]) ;
 
 		free (psf->channel_map) ;
 
-		if ((psf->channel_map = malloc (chanmap_size)) == NULL)
+		/* SFC_GET_CHANNEL_MAP_INFO copies one entry per channel. */
+		if ((psf->channel_map = calloc (psf->sf.channels, sizeof (psf->channel_map [0]))) == NULL)
 			return SFE_MALLOC_FAILED ;
 
 		memcpy (psf->channel_map, map_info->channel_map, chanmap_size) ;
